@@ -1,6 +1,6 @@
 SPECIFICATION Spec
 CONSTANT Off = {}
 CONSTANT Family = "avprec"
-INVARIANTS Safe TypeOk Export
+INVARIANTS Safe TypeOk OptionsOk Normalises SuffixIndependent Export
 PROPERTIES LoopProgress Monotone Terminates
 CHECK_DEADLOCK FALSE
